@@ -163,8 +163,6 @@ Qed.
 End Tail.
 
 (* ---------- Hash: line ---------- *)
-Definition wf_hash_name (n : text) : bool := negb (is_nil n) && forallb (fun c => hash_char c && negb (c =? 44)) n.
-
 Lemma join_hash_chars hs : hs <> [] -> Forall (fun n => wf_hash_name n = true) hs ->
   join [44] hs <> [] /\ forallb hash_char (join [44] hs) = true /\ forallb plain_char (join [44] hs) = true.
 Proof.
@@ -308,9 +306,9 @@ Proof.
   unfold read, read_gen, unarmor, unarmor_gen.
   assert (A : is_ascii_text (render names t h p) = false).
   { destruct (is_ascii_text (render names t h p)) eqn:E; [|reflexivity]. exfalso.
-    unfold render, is_ascii_text in E. rewrite !forallb_app in E.
-    repeat (apply andb_true_iff in E as [? E]).
-    match goal with X : forallb ascii_char (dash_escape t) = true |- _ => apply (esc_ascii_inv t true) in X; unfold is_ascii_text in *; congruence end. }
+    unfold render in E. rewrite !is_ascii_app in E.
+    do 4 (apply andb_true_iff in E as [_ E]). apply andb_true_iff in E as [E _].
+    apply (esc_ascii_inv t true) in E. rewrite E in H. discriminate. }
   rewrite A. reflexivity.
 Qed.
 
